@@ -190,9 +190,20 @@ IOPS = {'iadd': operator.iadd, 'isub': operator.isub, 'imul': operator.imul, 'it
         'iand': operator.iand, 'ior': operator.ior, 'ixor': operator.ixor}
 
 
+# the non-mutating counterparts ("rejected for the same reasons raise from the same exception families"); r* = the
+# polymath object is the RIGHT operand
+BINOPS = {'add': operator.add, 'sub': operator.sub, 'mul': operator.mul, 'truediv': operator.truediv,
+          'floordiv': operator.floordiv, 'mod': operator.mod, 'pow': operator.pow,
+          'and': operator.and_, 'or': operator.or_, 'xor': operator.xor}
+
+
 def apply(mut, t, a, case):
     if mut in IOPS:
         return IOPS[mut](t, a)
+    if mut in BINOPS:
+        return BINOPS[mut](t, a)
+    if mut[0] == 'r' and mut[1:] in BINOPS:
+        return BINOPS[mut[1:]](a, t)
     if mut == 'setitem':
         t[build_index(case['index'])] = a
         return t
